@@ -2140,3 +2140,52 @@ func init() {
 		}),
 	)
 }
+
+func init() {
+	extend("C06", "R06h: deleting a key that is not there is not an error on any backend — LevelDB's engine Delete reports nothing for a missing key, whereas the in-memory engine (goleveldb memdb) reports ErrNotFound, which the in-memory backend must therefore translate to success (library facts, frozen with this reason); otherwise a batch that ends with such a delete fails on one backend and succeeds on the other.",
+		rule("R06h", "delete of a missing key succeeds on every backend", 2, func(r *Run) {
+			memNotFound := "github.com/syndtr/goleveldb/leveldb/memdb.ErrNotFound"
+			lvlNotFound := "github.com/syndtr/goleveldb/leveldb/errors.ErrNotFound"
+			for _, fn := range []string{"common/db.(*GoMemDB).Delete", "common/db.(*GoMemDB).DeleteSync"} {
+				f := r.Fn(fn)
+				if f == nil {
+					continue
+				}
+				engineErr := core.FromCall(0, "github.com/syndtr/goleveldb/leveldb/memdb.(*DB).Delete")
+				isNF := func(c *core.Ctx, e ast.Expr) bool {
+					return core.IsObj(memNotFound)(c, e) || core.IsObj(lvlNotFound)(c, e) || core.IsObj("github.com/syndtr/goleveldb/leveldb.ErrNotFound")(c, e)
+				}
+				// under the assumption "the engine said not found" every return is a success
+				as := core.AssumeRel(engineErr, token.EQL, isNF, core.True)
+				fl := core.RunFlow(f, &core.FlowSpec{Assume: as})
+				label := fmt.Sprintf("%s answers nil when the engine reports the key missing", f.Name)
+				hasTest := false
+				ast.Inspect(f.Body(), func(x ast.Node) bool {
+					if e, ok := x.(ast.Expr); ok {
+						if _, ok := core.CmpAtom(f.Ctx(), e, engineErr, isNF); ok {
+							hasTest = true
+						}
+					}
+					return true
+				})
+				bad := ""
+				for _, ret := range fl.G.Returns() {
+					if !fl.Live(ret) {
+						continue
+					}
+					if core.ClassifyReturn(fl, ret, -1) != core.True {
+						bad = r.W.Pos(ret.Ast.Pos())
+					}
+				}
+				switch {
+				case !hasTest:
+					r.Fail(label, r.W.Pos(f.Node().Pos()), "the engine's ErrNotFound is never recognised: deleting a missing key is an error here and a no-op on LevelDB (a batch whose last operation is such a delete fails on this backend only)")
+				case bad != "":
+					r.Fail(label, bad, "with the engine reporting 'not found' this return can still carry an error")
+				default:
+					r.OK(label, r.W.Pos(f.Node().Pos()), "ErrNotFound → nil")
+				}
+			}
+		}),
+	)
+}
